@@ -19,6 +19,10 @@ type failover interface {
 	// witnesses in order to trigger a failover to a new leader.
 	Quorum() int
 
+	// IsWitness indicates if a report from the given witness counts towards
+	// the quorum, i.e. if it is one of the parties Quorum is computed from.
+	IsWitness(witness string) bool
+
 	// Timeout returns the time elapsed before expiring a failover. Each time a
 	// report is made, the failover's timeout is reset. Upon timing out, the
 	// timer for the leader failover is removed.
@@ -59,7 +63,16 @@ func (f *failoverStatus) report(ctx context.Context, witness string) *status.Sta
 	f.mu.Lock()
 
 	f.witnesses[witness] = struct{}{}
-	leaderFailed := len(f.witnesses) > f.failover.Quorum()
+	// The quorum is computed from the parties that can currently report the
+	// leader. Forget witnesses which are no longer among them, e.g. a replica
+	// that was removed from the ISR after it reported the leader.
+	quorum := f.failover.Quorum()
+	for w := range f.witnesses {
+		if !f.failover.IsWitness(w) {
+			delete(f.witnesses, w)
+		}
+	}
+	leaderFailed := len(f.witnesses) > quorum
 
 	if leaderFailed {
 		if f.timer != nil {
@@ -118,6 +131,12 @@ func (p *partitionFailover) Quorum() int {
 	return (p.partition.ISRSize() - 1) / 2
 }
 
+// IsWitness indicates if the given replica is an in-sync follower.
+func (p *partitionFailover) IsWitness(witness string) bool {
+	leader, _ := p.partition.GetLeader()
+	return witness != leader && p.partition.inISR(witness)
+}
+
 // Timeout returns the configured ReplicaMaxLeaderTimeout.
 func (p *partitionFailover) Timeout() time.Duration {
 	return p.timeout
@@ -157,6 +176,11 @@ func newGroupFailoverStatus(group *consumerGroup, timeout time.Duration,
 // Quorum returns members / 2.
 func (g *groupFailover) Quorum() int {
 	return len(g.group.GetMembers()) / 2
+}
+
+// IsWitness indicates if the given consumer is a member of the group.
+func (g *groupFailover) IsWitness(witness string) bool {
+	return g.group.IsMember(witness)
 }
 
 // Timeout returns the configured GroupsCoordinatorTimeout.
